@@ -11,7 +11,7 @@ import (
 // connection uses a live client id the first one gets nothing after its DISCONNECT and is closed.
 // Driven end to end through the real connection handler (attachClient) on live scripted connections.
 func VerifC14Takeover() {
-	s, _ := vNewServer(nil)
+	s, h := vNewServer(nil)
 	oldVer := vByteIn("\x04\x05")
 	newVer := vByteIn("\x04\x05")
 	oldClean := vBool()
@@ -46,6 +46,11 @@ func VerifC14Takeover() {
 		vAssert("session-present-only-if-a-session-existed-and-clean-start-0", !present || (sessionExisted && !newClean))
 		if sessionExisted && !newClean && !(oldClean && ov < 5) {
 			vAssert("session-present-when-resuming", present)
+		}
+		if sessionExisted && newClean {
+			// the discarded session's unacknowledged message is released: reported to the hooks (that is how a
+			// store learns to forget it, so that nothing is "restored later") and no longer counted
+			vAssert("discarded-session-releases-its-unacknowledged-messages", h.qosDropped == 1 && s.Info.Inflight == 0)
 		}
 		if present {
 			vAssert("resumed-session-redelivers-the-unacknowledged-message", vCountPublishes(c2, nv, "t") == 1)
